@@ -99,10 +99,22 @@ class Check(PropertyCheck):
             nj, nm = kw["num_jobs"][1], kw["num_machines"][0]
             sized = [c.generate(num_jobs=nj, num_machines=nm), c.generate(num_jobs=nj), c.generate(num_machines=nm),
                      c.generate(num_jobs=nj, num_machines=nm)]
+            # only the machine count given, as large as the largest job count: the sampled job count must still respect
+            # the flag (or the call must refuse)
+            for _ in range(4):
+                try:
+                    sized.append(c.generate(num_machines=nj))
+                except Exception:  # pylint: disable=broad-except
+                    pass
             if (len(sized[0].jobs), len(sized[0].jobs[0])) != (nj, nm) or len(sized[1].jobs) != nj or \
                     len(sized[2].jobs[0]) != nm:
                 res.append(("explicit-size", f"generate(num_jobs={nj}, num_machines={nm}) returned "
                             f"{len(sized[0].jobs)} jobs x {len(sized[0].jobs[0])} operations"))
+            if not kw["allow_less_jobs_than_machines"]:
+                for inst in sized + first + second:
+                    if len(inst.jobs) < len(inst.jobs[0]):
+                        res.append(("fewer-jobs", f"{len(inst.jobs)} jobs < {len(inst.jobs[0])} machines although "
+                                    f"allow_less_jobs_than_machines=False (generate with explicit sizes / iteration)"))
             all_names = [pre.name] + [i.name for i in first + second] + [i.name for i in sized] + [c.generate().name]
             if len(set(all_names)) != len(all_names):
                 res.append(("names", f"one generator reused names across generate() and two iterations: {all_names}"))
